@@ -65,9 +65,18 @@ def impl_extract(case, binf, size, n_jobs, out):
     from ibldsp import waveform_extraction as we
     ns, nc = case["ns"], case["nc"]
     sp = case["spikes"]
-    ss = np.array([s[0] for s in sp], dtype=np.int64)
-    sc = np.array([s[1] for s in sp], dtype=np.int64)
-    sch = np.array([s[2] for s in sp], dtype=np.int64)
+    dts = case.get("dt") or ["int64", "int64", "int64"]
+    arrs = []
+    for col, dt in enumerate(dts):
+        a = np.array([s[col] for s in sp], dtype=np.dtype(dt))
+        if case.get("strided"):          # non-contiguous view with the same content
+            buf = np.zeros(2 * len(a) + 1, dtype=a.dtype)
+            buf[1::2] = a
+            a = buf[1::2]
+        arrs.append(a)
+    ss, sc, sch = arrs
+    if case.get("bin_str"):
+        binf = str(binf)
     h = {"x": np.array([g[0] for g in case["geom"]], dtype=float),
          "y": np.array([g[1] for g in case["geom"]], dtype=float),
          "sample_shift": np.zeros(nc)}
@@ -380,8 +389,18 @@ def gen_case(rng, cid, big=None):
     if labels is not None and rng.random() < 0.2:
         labels = labels + [9999]
     indices = None if rng.random() < 0.4 else sorted(rng.sample(range(0, maxwf + 1), rng.randrange(1, min(3, maxwf) + 1)))
+    # representation of the inputs: integer dtypes (phy/kilosort store spike_times.npy as uint64),
+    # contiguity, Path vs str
+    INT = ["int64", "uint64", "int32", "uint32"]
+    dt = [INT[(cid + rng.randrange(2) * 2) % 4] if big is None else rng.choice(INT), rng.choice(INT), rng.choice(INT)]
+    if dt[0].startswith("u"):
+        # a unit made only of spikes too close to the start (a wrapped `sample - trough_offset` would accept them)
+        early = sorted({0, to // 2, to, max(0, to - 1)})
+        spikes = [[t, 77, rng.choice([0, nc - 1])] for t in early] + spikes
+        spikes.sort(key=lambda s: s[0])
     return {"id": cid, "ns": ns, "nc": nc, "geom": geom, "to": to, "L": L, "maxwf": maxwf, "spikes": spikes,
-            "seed": rng.randrange(1, 10 ** 6), "labels": labels, "indices": indices, "sizes": sizes}
+            "seed": rng.randrange(1, 10 ** 6), "labels": labels, "indices": indices, "sizes": sizes,
+            "dt": dt, "strided": rng.random() < 0.3, "bin_str": rng.random() < 0.3}
 
 
 def gen_chanidx_case(rng):
@@ -407,6 +426,8 @@ def enc_chanidx(c):
 # --------------------------------------------------------------------------
 def case_desc(case, size, n_jobs):
     d = {k: case[k] for k in ("ns", "nc", "geom", "to", "L", "maxwf", "spikes", "seed", "labels", "indices")}
+    for k in ("dt", "strided", "bin_str"):
+        d[k] = case.get(k)
     d["size"], d["n_jobs"] = size, n_jobs
     return d
 
@@ -538,6 +559,10 @@ def run(ctx):
     dist = {"extractions": nrun, "cases": len(cases), "n_jobs": {str(k): v for k, v in sorted(stats["n_jobs"].items())},
             "chunks_min": min(stats["chunks"]), "chunks_max": max(stats["chunks"]),
             "implementation_raised": stats["errors"], "channel_index_cases": len(ci_cases),
+            "spike_samples_dtype": {k: sum(1 for c in cases if c["dt"][0] == k) for k in ("int64", "uint64", "int32", "uint32")},
+            "unsigned_cluster_or_channel_dtype": sum(1 for c in cases if c["dt"][1][0] == "u" or c["dt"][2][0] == "u"),
+            "non_contiguous_inputs": sum(1 for c in cases if c["strided"]),
+            "bin_file_as_str": sum(1 for c in cases if c["bin_str"]),
             "default_window_42_128": sum(1 for c in cases if (c["to"], c["L"]) == (42, 128)),
             "full_probe_cases": sum(1 for c in cases if c["nc"] == 384),
             "units_with_no_valid_spike": sum(1 for c in cases for u in {s[1] for s in c["spikes"]}
@@ -548,7 +573,9 @@ def run(ctx):
         rule="synthetic float32 recordings with value = sample*(nc+1)+channel; geometries (staggered, single column "
              "with pitches that hit/miss radius 200 exactly, 3-4-5 diagonals, two shanks, random grid, one full "
              "NP1/NP2 probe); spike trains sorted by time with spikes at the validity limits, on chunk seams, "
-             "duplicated inside and across units, unit sizes below/at/above max_wf and empty units; 1-3 chunk sizes "
+             "duplicated inside and across units, unit sizes below/at/above max_wf and empty units; spike_samples / clusters / "
+             "channels passed as int64, uint64, int32 or uint32 arrays (unsigned sample cases always carry a unit made only of "
+             "spikes within trough_offset of the start), contiguous or strided, bin file as Path or str; 1-3 chunk sizes "
              "per recording (500..10000 and small ones >= trough_offset), n_jobs 1..4; every configuration is run "
              "through the real extract_wfs_cbin + WaveformsLoader and through the Coq model (all four files + loader "
              "selection), the files of all configurations of one recording must be identical; plus "
